@@ -153,6 +153,24 @@ let inexact (op : iop) (x : num) (y : num) : num =
 
 let sat = sat_std
 
+let rd_stmt () : stmt =
+  match next () with
+  | "assign" -> let p = rd_pat () in SAssign (p, rd_val ())
+  | "declare" -> let p = rd_pat () in SDeclare (p, rd_val ())
+  | "opassign" -> let x = nn () in let op = nn () in SOpAssign (x, op, rd_val ())
+  | "every" -> let k = nat () in let xs = times k nn in SEvery (xs, rd_val ())
+  | "everyop" -> let x = nn () in let op = nn () in SEveryOp (x, op, rd_val ())
+  | "swap" -> let x = nn () in SSwap (x, nn ())
+  | "setindex" -> let x = nn () in let i = zz () in SSetIndex (x, i, rd_val ())
+  | s -> raise (Bad ("stmt " ^ s))
+
+(* x=<value>:<does the value satisfy the declared type: 1 / 0 / e> *)
+let show_typed_store (s : (Model.n * (ty * val0)) list) =
+  let es = List.map (fun (x, (t, v)) ->
+    (BZ.to_int (z_of_coqn x),
+     show_val v ^ ":" ^ (match is_type sat t v with Ok true -> "1" | Ok false -> "0" | _ -> "e"))) s in
+  String.concat ";" (List.map (fun (x, v) -> string_of_int x ^ "=" ^ v) (List.sort compare es))
+
 (* ---------------------------------------------------------------- commands *)
 let run_line (line : string) : string =
   toks := split_ws line;
@@ -178,6 +196,12 @@ let run_line (line : string) : string =
   | "typeof" -> show_ty (type_of (rd_val ()))
   | "veq" -> let a = rd_val () in let b = rd_val () in if veq a b then "1" else "0"
   | "show" -> show_val (rd_val ())
+  | "hist" ->
+    let k = nat () in
+    let sts = times k rd_stmt in
+    let steps = run_hist sat inexact (binop_std inexact) sts [] in
+    String.concat " | " (List.map (fun ((_, s), o) ->
+      (match o with Ok () -> "ok" | Err _ -> "err" | Panic -> "panic" | OutOfFuel -> "fuel") ^ " " ^ show_typed_store s) steps)
   | s -> "badcase " ^ s
 
 let () = serve (fun line -> try run_line line with Bad m -> "badcase " ^ m)
